@@ -38,9 +38,12 @@ def cases(tier):
         for fmt in FORMATS:
             out.append({'spec': spec, 'format': fmt})
     # more than 10^4 (quick) / 10^5 (thorough) cells: the width of index fields in attribute tables
-    big = [{'family': 'cf1d', 'ny': 101, 'nx': 100, 'bounds': 'var', 'nt': 1, 'nk': 1}]
+    big = [{'family': 'cf1d', 'ny': 101, 'nx': 100, 'bounds': 'var', 'nt': 1, 'nk': 1},
+           # native indexes such as ["face", 103, 11]: long text in the attribute table
+           {'family': 'shoc_standard', 'nj': 104, 'ni': 12, 'dry': 'corner', 'nt': 1, 'nk': 1}]
     if tier == 'thorough':
         big.append({'family': 'cf1d', 'ny': 320, 'nx': 315, 'nt': 1, 'nk': 1})
+        big.append({'family': 'shoc_standard', 'nj': 1002, 'ni': 3, 'nt': 1, 'nk': 1})
         nodes, faces = builders._lattice_mesh(101, 100)
         big.append({'family': 'ugrid', 'mesh': 'lattice-101x100', 'nodes': nodes, 'faces': faces, 'nt': 1, 'nk': 1})
     for spec in big:
